@@ -566,14 +566,23 @@ class Impl:
             self.ret, self.outcome = self.steps[0]['ret'], self.steps[0]['outcome']
             self.sent_mark = {k: len(s.sent) for k, s in self.sess.items()}
             self.up_at_mark = {k: s.up for k, s in self.sess.items()}
-            self.set_down_states()
-            for ip in IPS:
-                self.establish(ip)
-            for ip in IPS:
-                self.drain(ip)
+            # API operations that arrive while the sessions torn down by the reloads are not back yet
+            self.mid_done = [self.do(step) for step in c.get('mid', [])]
+            self.round_obs = []
+            self.rounds_done = []
+            for rnd in [[]] + list(c.get('rounds', [])):
+                # what happens between two establishments: API operations, session losses
+                self.rounds_done.append([self.do(step) for step in rnd])
+                self.set_down_states()
+                for ip in IPS:
+                    self.establish(ip)
+                for ip in IPS:
+                    self.drain(ip)
+                self.round_obs.append(self.observe()['ribs'])
+                if len(self.round_obs) == 1:
+                    self.sent_after = {k: s.sent[self.sent_mark.get(k, 0):] for k, s in self.sess.items()}
             self.final = self.observe()
             self.final_stale = [self.ids.nbname(k) for k in self.rig.configuration.neighbor.neighbors]
-            self.sent_after = {k: s.sent[self.sent_mark.get(k, 0):] for k, s in self.sess.items()}
         finally:
             self._restore()
             try:
@@ -582,12 +591,27 @@ class Impl:
                 pass
         return self
 
+    def drop(self, ip):
+        """the session is lost: the real Peer._reset (reset_rib, FSM to IDLE, neighbor hand-over); the remote end forgets everything"""
+        key, peer = self.peer_of(ip)
+        if peer is None:
+            return False
+        s = self.sess_of(key)
+        if not s.up:
+            return False
+        peer._reset('session lost', 'emulated by the harness')
+        s.up, s.fresh, s.cur, s.buf, s.table = False, False, None, [], {}
+        self.trace.append(('drop', self.ids.nbname(key)))
+        return True
+
     def do(self, step):
         kind = step[0]
         if kind == 'establish':
             self.establish(step[1])
         elif kind == 'api':
-            self.api_route(step[1], step[2], step[3])
+            return self.api_route(step[1], step[2], step[3])
+        elif kind == 'drop':
+            return self.drop(step[1])
         elif kind == 'start':
             self.start(step[1])
         elif kind == 'emit':
@@ -637,6 +661,8 @@ def coq_trace(trace):
             parts.append(f'RibOp {t[1]} (Ann ({coq_route(t[2])}))')
         elif k == 'wd':
             parts.append(f'RibOp {t[1]} (Wd ({coq_route(t[2])}))')
+        elif k == 'drop':
+            parts.append(f'RibOp {t[1]} Drop')
         elif k == 'start':
             parts.append(f'RibOp {t[1]} Start')
         elif k == 'emit':
@@ -1023,9 +1049,6 @@ def judge(case, im):
         sig = 'reload-sequence'
     else:
         sig = 'reload'
-    got = {}
-    for nid, rib in im.final['ribs'].items():
-        got[key_of_name(names[nid])] = (rib['up'], tx.table(rib['peer']), rib['queued'], rib['withdraws'])
     want = tables
     cfg_keys = sorted(key_of_name(names[n]) for n in im.final['neighbors'])
     if cfg_keys != sorted(want):
@@ -1036,31 +1059,67 @@ def judge(case, im):
         probs.append((sig + ':peers', f'reactor peers {peers}, the file has {sorted(want)}'))
         return probs
     down = {nbkey(nb): case.get('fsm', {}).get(nb['ip'], 'IDLE') for nb in cur}
-    for k, t in want.items():
-        if k not in got:
-            probs.append((sig + ':no-rib', f'{k} has no RIB'))
-            continue
-        up, table, queued, wds = got[k]
-        if not up or queued or wds:
-            probs.append((sig + ':not-drained', f'{k}: up={up} queued={queued} withdraws={wds}'))
-        elif table != t:
-            probs.append((sig + ':peer-table' + (':reload-after-parameter-change' if k in chained else ''), f'{k} (FSM state while down: {down.get(k)}): peer holds {table}, expected {t} '
-                          f'(prefix -> (next hop, attribute set)) after {accepted} accepted reload(s)'))
-    for k in got:
-        if k not in want and got[k][1]:
-            probs.append((sig + ':removed-neighbor-still-served', f'{k} is not configured and its peer holds {got[k][1]}'))
-    # a route that no current definition names is never announced once the last reload is done
-    for name, sent in im.sent_after.items():
-        k = key_of_name(name)
-        if k not in want or im.up_at_mark.get(name):
-            continue  # an established session may still be sending a generator started before the reload
-        for u in sent:
-            if u[0] == 3:
-                p = tx.idx.get(u[1], ('?', u[1]))
-                if p not in want[k]:
-                    probs.append((sig + ':announced-removed-route' + (':reload-after-parameter-change' if k in chained else ''), f'{k} (FSM state while down: {down.get(k)}): prefix {p} is announced after the last reload, '
-                                  f'the peer must hold {want[k]}'))
-                    break
+    key_of_ip = {nb['ip']: nbkey(nb) for nb in cur}
+
+    def api_apply(steps, done, touched):
+        """API operations after the reloads act on the intention of the neighbor that now has the address"""
+        for step, ok in zip(steps, done):
+            if step[0] != 'api' or step[1] not in key_of_ip:
+                continue
+            k = key_of_ip[step[1]]
+            p, h, a = step[3]
+            touched.add(k)
+            if not ok:
+                probs.append((sig + ':api-refused', f'{step} is refused after the reloads'))
+                continue
+            if step[2] == 'announce':
+                want[k][p] = (h, a)
+            else:
+                want[k].pop(p, None)
+
+    mid_keys = set()
+    api_apply(case.get('mid', []), im.mid_done, mid_keys)
+    rounds = [[]] + list(case.get('rounds', []))
+    for j, (rnd, done, obs) in enumerate(zip(rounds, im.rounds_done, im.round_obs)):
+        api_apply(rnd, done, set())
+        lost = sorted(step[1] for step, ok in zip(rnd, done) if step[0] == 'drop' and ok)
+        got = {}
+        for nid, rib in obs.items():
+            got[key_of_name(names[nid])] = (rib['up'], tx.table(rib['peer']), rib['queued'], rib['withdraws'])
+        for k, t in want.items():
+            if k not in got:
+                probs.append((sig + ':no-rib', f'{k} has no RIB'))
+                continue
+            up, table, queued, wds = got[k]
+            if j == 0:
+                where = sig + ':peer-table' + (':reload-after-parameter-change' if k in chained else '') \
+                    + (':api-before-the-session-is-back' if k in mid_keys and k in reest else '')
+            else:
+                where = sig + ':peer-table:after-a-later-session-loss' + (':of-a-re-established-neighbor' if k in reest else '')
+            if not up or queued or wds:
+                probs.append((sig + ':not-drained', f'{k}: establishment {j + 1}: up={up} queued={queued} withdraws={wds}'))
+            elif table != t:
+                probs.append((where, f'{k} (FSM state while down: {down.get(k)}): after establishment {j + 1}'
+                              f'{" (sessions lost before it: " + str(lost) + ")" if j else ""} the peer holds {table}, expected {t} '
+                              f'(prefix -> (next hop, attribute set)) = files of {accepted} accepted reload(s) + API intent'))
+        if j == 0:
+            for k in got:
+                if k not in want and got[k][1]:
+                    probs.append((sig + ':removed-neighbor-still-served', f'{k} is not configured and its peer holds {got[k][1]}'))
+            # a route that no current definition names is never announced once the last reload is done
+            for name, sent in im.sent_after.items():
+                k = key_of_name(name)
+                if k not in want or im.up_at_mark.get(name):
+                    continue  # an established session may still be sending a generator started before the reload
+                for u in sent:
+                    if u[0] == 3:
+                        p = tx.idx.get(u[1], ('?', u[1]))
+                        if p not in want[k]:
+                            probs.append((sig + ':announced-removed-route' + (':reload-after-parameter-change' if k in chained else ''),
+                                          f'{k} (FSM state while down: {down.get(k)}): prefix {p} is announced after the last reload, the peer must hold {want[k]}'))
+                            break
+        if any(s_.endswith(':not-drained') or ':peer-table' in s_ for s_, _ in probs):
+            break  # later establishments inherit the first difference
     return probs
 
 
@@ -1117,8 +1176,35 @@ def describe(case):
          'fsm_state_of_the_sessions_that_are_down': case.get('fsm', {}), 'reloads': []}
     for rl in reloads_of(case):
         d['reloads'].append({'file': None if rl['cfg'] is None else render(rl['cfg'], rl.get('fault')), 'fault': rl.get('fault')})
-    d['then'] = 'every session is established (replace_restart as Peer._main does) and drained'
+    d['api_operations_before_the_sessions_are_back'] = [list(map(str, x)) for x in case.get('mid', [])]
+    d['then'] = 'every session is established (replace_restart as Peer._main does) and drained; the peer tables are judged'
+    d['then_rounds'] = [{'operations (api, session loss = Peer._reset)': [list(map(str, x)) for x in rnd],
+                         'then': 'every session that is down is established again and drained; the peer tables are judged'}
+                        for rnd in case.get('rounds', [])]
     return d
+
+
+def gen_api(rng, ips):
+    rt = (rng.randrange(len(PREFIXES)), rng.randrange(len(NHS)), rng.randrange(len(ATTRS)))
+    return ('api', rng.choice(ips), 'announce' if rng.random() < 0.7 else 'withdraw', rt)
+
+
+def gen_after(rng, case):
+    """what follows the reloads: API operations before the sessions are back (one case in three), then 0-2
+    rounds of API operations (also on routes the reloads removed: 6 prefixes in all) and session losses"""
+    ips = sorted({nb['ip'] for nb in case['old']} | {nb['ip'] for rl in reloads_of(case) if rl['cfg'] for nb in rl['cfg']})
+    if rng.random() < 0.35:
+        case['mid'] = [gen_api(rng, ips) for _ in range(rng.choice([1, 1, 2]))]
+    rounds = []
+    for _ in range(rng.choice([0, 1, 1, 2])):
+        rnd = [gen_api(rng, ips) for _ in range(rng.choice([0, 1, 1, 2]))]
+        rnd += [('drop', ip) for ip in ips if rng.random() < 0.6]
+        rng.shuffle(rnd)
+        if not any(x[0] == 'drop' for x in rnd):
+            rnd.append(('drop', rng.choice(ips)))
+        rounds.append(rnd)
+    case['rounds'] = rounds
+    return case
 
 
 DOWN_STATES = ['IDLE', 'ACTIVE', 'CONNECT', 'OPENSENT', 'OPENCONFIRM']
@@ -1161,13 +1247,30 @@ def scripted_sequences():
         [nb([A]), nb([A, C], 90)],
         [nb([A, (1, 1, 1)]), nb([A])],
     ]
+    annB, wdA, loss = ('api', IPS[0], 'announce', B), ('api', IPS[0], 'withdraw', A), ('drop', IPS[0])
+    # after the reloads: (API operations before the session is back, rounds of API operations / session losses)
+    afters = [
+        ([], [[annB, loss]]),
+        ([], [[annB, loss], [loss]]),
+        ([], [[loss, annB]]),
+        ([], [[wdA, loss], [loss]]),
+        ([annB], []),
+        ([annB], [[loss]]),
+        ([wdA], [[loss]]),
+    ]
     out = []
     for state in DOWN_STATES + ['UP']:
+        pre = [('establish', IPS[0]), ('drain', IPS[0])] if state == 'UP' else []
+        fsm = {} if state == 'UP' else {IPS[0]: state}
         for seq in seqs:
             rls = [x if isinstance(x, dict) else {'cfg': x, 'fault': None} for x in seq]
-            pre = [('establish', IPS[0]), ('drain', IPS[0])] if state == 'UP' else []
-            out.append({'old': nb([A, B]), 'new': rls[0]['cfg'], 'pre': pre, 'reloads': rls,
-                        'fsm': {} if state == 'UP' else {IPS[0]: state}})
+            out.append({'old': nb([A, B]), 'new': rls[0]['cfg'], 'pre': pre, 'reloads': rls, 'fsm': fsm})
+        # a route removed by a reload (with and without re-establishment) and announced again through the API,
+        # then session losses: it must be there after every later establishment
+        for first in (nb([A], 90), nb([A])):
+            for mid, rounds in afters:
+                out.append({'old': nb([A, B]), 'new': first, 'pre': pre, 'reloads': [{'cfg': first, 'fault': None}],
+                            'fsm': fsm, 'mid': list(mid), 'rounds': [list(r) for r in rounds]})
     return out
 
 
@@ -1195,6 +1298,15 @@ def shrink(case, sig, workdir):
         cand['new'] = cand['reloads'][0]['cfg']
         if fails(cand):
             cur = cand
+    for field in ('rounds', 'mid'):
+        k = 0
+        while k < len(cur.get(field, [])):
+            cand = dict(cur)
+            cand[field] = cur[field][:k] + cur[field][k + 1:]
+            if fails(cand):
+                cur = cand
+            else:
+                k += 1
     changed = True
     budget = 60
     while changed and budget > 0:
@@ -1243,7 +1355,10 @@ def check(tier, seed):
         new, applied = mutate(rng, old)
         for m in applied:
             mutmix[m] += 1
-        cases.append({'old': old, 'new': new, 'pre': gen_pre(rng, old)})
+        c = {'old': old, 'new': new, 'pre': gen_pre(rng, old)}
+        if rng.random() < 0.4:
+            gen_after(rng, c)
+        cases.append(c)
         kinds.append('pair')
     n_seq = 420 if tier == 'quick' else 9000
     seqmix = collections.Counter()
@@ -1254,7 +1369,10 @@ def check(tier, seed):
             pre = [st for st in pre if st[0] == 'api']  # every session down through all the reloads
         n = rng.choice([1, 2, 2, 3, 3])
         rls = gen_sequence(rng, old, n)
-        cases.append({'old': old, 'new': rls[0]['cfg'], 'pre': pre, 'reloads': rls})
+        c = {'old': old, 'new': rls[0]['cfg'], 'pre': pre, 'reloads': rls}
+        if rng.random() < 0.6:
+            gen_after(rng, c)
+        cases.append(c)
         kinds.append('sequence')
         seqmix[f'{n} reloads, {sum(1 for r in rls if r["fault"] or r["cfg"] is None)} failing'] += 1
     scripted = scripted_sequences()
@@ -1353,7 +1471,7 @@ def check(tier, seed):
         run.fail_case(sig, what, {'scenario': f'configuration with a process section, then a reload failing by {label}, then the valid file again'})
 
     nontrivial = {(render(c['old']), str([(None if r['cfg'] is None else render(r['cfg'], r.get('fault'))) for r in reloads_of(c)]),
-                   str(c['pre']), str(sorted(c['fsm'].items()))) for c in cases}
+                   str(c['pre']), str(sorted(c['fsm'].items())), str(c.get('mid')), str(c.get('rounds'))) for c in cases}
     run.coverage.update({
         'evaluations': len(cases),
         'distinct_nontrivial': len(nontrivial),
@@ -1365,7 +1483,12 @@ def check(tier, seed):
                 f'with every session down (60%) or mixed, plus {len(scripted)} scripted sequences (a route removed by the first reload, 0-2 more reloads, '
                 f'failed ones in between, parameter changes) in every down state and up; every session that is down sits in a random FSM state of '
                 f'{DOWN_STATES} at every reload; Model_Reload has ONE down state: the correspondence and the oracle both require the code to behave alike in all five; '
-                f'non-trivial = distinct (old text, reload texts, schedule, FSM states)',
+                f'40% of the pairs and 60% of the sequences go on after the reloads: API announce/withdraw before the sessions are back (one in three), then 0-2 rounds of '
+                f'API operations (6 prefixes: also the ones the reloads removed) and session losses (real Peer._reset), each round closed by a new establishment and drain; '
+                f'the peer tables are judged after EVERY establishment against files + API intent; '
+                f'non-trivial = distinct (old text, reload texts, schedule, FSM states, what follows)',
+        'histories_going_on_after_the_reloads': sum(1 for c in cases if c.get('rounds') or c.get('mid')),
+        'later_session_losses': sum(1 for c in cases for r in c.get('rounds', []) for x in r if x[0] == 'drop'),
         'reload_sequences': dict(seqmix),
         'fsm_states_of_down_sessions': dict(fsmmix),
         'differences_applied': dict(mutmix),
